@@ -39,6 +39,22 @@ def gen_op(rng, cur_kinds, p_bad=0.06, children_of=None, p_copy=0.08):
         return {"op": "add", "c": rng.choice(colls), "objs": pick(rng.choice([1, 1, 2, 3])), "ov": rng.random() < 0.6}
     if r < 0.58:
         if children_of and rng.random() < 0.4:
+            # removal of a DEEP descendant (grandchild or deeper) through the top collection, recursive
+            def deep(c, d=0, seen=()):
+                out = []
+                for x in children_of.get(c, []):
+                    if x in seen or d > 16:
+                        continue
+                    if d >= 1:
+                        out.append((d, x))
+                    out += deep(x, d + 1, seen + (c,))
+                return out
+            cands = [(c, deep(c)) for c in colls]
+            cands = [(c, ds) for c, ds in cands if ds]
+            if cands and rng.random() < 0.5:
+                c, ds = rng.choice(cands)
+                dmax = max(d for d, _ in ds)
+                return {"op": "remove", "c": c, "objs": [rng.choice([x for d, x in ds if d == dmax])], "rec": True, "raise": rng.random() < 0.5}
             # structured argument lists: a child collection followed by one of its own children, or a nested descendant
             c = rng.choice(colls)
             sub = [x for x in children_of.get(c, []) if cur_kinds[x] == "c" and children_of.get(x)]
@@ -239,7 +255,23 @@ def real_lines(h, rng=None, n_ops=0, p_copy=0.08):
                 break
             idx = {id(o): i for i, o in enumerate(objs)}
             ch = {i: [idx[id(x)] for x in o._children if id(x) in idx] for i, o in enumerate(objs) if isinstance(o, magpy.Collection)}
-            op = gen_op(rng, [kind_of(o) for o in objs], children_of=ch, p_copy=p_copy)
+            if j == 0:
+                # every fourth history starts with a scripted chain c0 > c1 > c2 > leaf followed by the removal of the leaf
+                # through the top collection (a descendant three levels down)
+                cs = [i for i, o in enumerate(objs) if isinstance(o, magpy.Collection)]
+                lf = [i for i, o in enumerate(objs) if not isinstance(o, magpy.Collection)]
+                h["script"] = []
+                if len(cs) >= 3 and lf and rng.random() < 0.25:
+                    rng.shuffle(cs)
+                    c0, c1, c2 = cs[:3]
+                    leaf = rng.choice(lf)
+                    h["script"] = [{"op": "add", "c": c0, "objs": [c1], "ov": True}, {"op": "add", "c": c1, "objs": [c2], "ov": True},
+                                   {"op": "add", "c": c2, "objs": [leaf], "ov": True},
+                                   {"op": "remove", "c": c0, "objs": [leaf], "rec": True, "raise": rng.random() < 0.5}]
+            if h.get("script"):
+                op = h["script"].pop(0)
+            else:
+                op = gen_op(rng, [kind_of(o) for o in objs], children_of=ch, p_copy=p_copy)
             h["ops"].append(op)
         else:
             if j >= len(h["ops"]):
